@@ -533,8 +533,69 @@ def check_players(case):
     return Result(vio or None, classes, not legal or "conditional" in classes)
 
 
+# ---- validator types with parameters the shipped spec does not use (mode, platform and device specs do) -------------------
+SYN_TYPES = ["int", "float", "num", "int_or_token", "float_or_token", "num_or_token"]
+SYN_RANGES = ["0,10", "-5,5", "NONE,3", "1,NONE", "0,255", "0.5,1.5", None]
+SYN_PLAIN = ["ms_or_token", "secs_or_token", "bool_or_token", "str_or_token"]
+
+
+@st.composite
+def case_synthetic(draw):
+    if draw(st.integers(0, 5)) == 0:
+        validator = draw(st.sampled_from(SYN_PLAIN))
+    else:
+        t, r = draw(st.sampled_from(SYN_TYPES)), draw(st.sampled_from(SYN_RANGES))
+        validator = t + ("(%s)" % r if r else "")
+    container = draw(st.sampled_from(["single", "single", "list", "dict"]))
+    if container == "single":
+        value = draw(value_strategy(validator))
+    elif container == "list":
+        value = draw(st.one_of(st.lists(value_strategy(validator), max_size=3), value_strategy(validator)))
+    else:
+        value = draw(st.one_of(st.dictionaries(st.sampled_from(["a", "b", "c"]), value_strategy(validator), max_size=3), junk))
+    return {"validator": validator, "container": container, "value": value}
+
+
+_SYN_DONE = set()
+
+
+def check_synthetic(case):
+    """A one-key spec `v: <container>|<type>(<range>)|` is registered the way modes/platforms register theirs; the result
+    of validating {v: value} against it is judged by the same per-validator predicate as the shipped sections."""
+    cv = rig().machine.config_validator
+    validator = case["validator"] if case["container"] != "dict" else "str:" + case["validator"]
+    name = "c12syn_%s_%s" % (case["container"], re.sub(r"[^0-9a-zA-Z]", "_", case["validator"]))
+    if name not in _SYN_DONE:
+        cv.load_mode_config_spec(name, {"v": "%s|%s|" % (case["container"], validator)})
+        _SYN_DONE.add(name)
+    path = "_mode_settings:" + name
+    spec = spec_of(path)
+    before = copy.deepcopy(spec)
+    src = {"v": copy.deepcopy(case["value"])}
+    classes = ["t:" + split_validator(case["validator"])[0], case["container"]]
+    _, param = split_validator(case["validator"])
+    if param:
+        classes.append("ranged")
+    vio = []
+    try:
+        res = cv.validate_config(path, src)
+    except Exception as e:   # pylint: disable=broad-except
+        classes.append("rejected:" + type(e).__name__)
+    else:
+        classes.append("accepted")
+        try:
+            check_result(path, res, path)
+        except Bad as e:
+            vio.append(violation("synthetic:ill-typed:" + _vname(str(e)), "spec 'v: %s|%s|', validate_config(%r) returned a bad config: %s" % (
+                case["container"], validator, {"v": case["value"]}, e)))
+    if spec != before:
+        vio.append(violation("spec-modified", "validating %r against %s modified the spec" % (case["value"], path)))
+    return Result(vio or None, classes, bool(param))
+
+
 SUBCHECKS = [
     SubCheck("sections", case_sections, check_sections, quick=24000, thorough=600000, procs_quick=10),
+    SubCheck("synthetic", case_synthetic, check_synthetic, quick=6000, thorough=150000, procs_quick=2),
     SubCheck("players", lambda: case_players, check_players, quick=3000, thorough=60000, procs_quick=2),
     SubCheck("time", lambda: case_time, check_time, quick=6000, thorough=200000, procs_quick=2,
              fuzz={"quick": 4000, "thorough": 300000, "modules": ['mpf.core.utility_functions', 'mpf.core.config_validator']}),
